@@ -540,8 +540,8 @@ BENIGN["C13"] += [
 
 # ---- round-4 rules (structure law, scale-after-transform, memory-order traversal, helper recursion)
 SEEDED["C01"] += [
-    (SC, "    return D_vk\n", "    return numpy.where(seperation > L0, D_vk.max(), D_vk)\n", "stencil.structure-law"),
-    (SC, "    return D_vk\n", "    return numpy.sort(D_vk.ravel()).reshape(numpy.shape(D_vk))\n", "stencil"),
+    (SC, "    return numpy.where(numpy.equal(seperation, 0), 0., D_vk)[()]\n", "    return numpy.where(seperation > L0, D_vk.max(), D_vk)\n", "stencil.structure-law"),
+    (SC, "    return numpy.where(numpy.equal(seperation, 0), 0., D_vk)[()]\n", "    return numpy.sort(D_vk.ravel()).reshape(numpy.shape(D_vk))\n", "stencil"),
 ]
 SEEDED["C09"] += [
     (FT, "                    numpy.fft.ifftshift(data, axes=(-1,-2))\n                    ), axes=(-1,-2)\n            )*delta**2\n",
@@ -650,4 +650,16 @@ BENIGN["C11"] += [
 ]
 SEEDED["C10"] += [
     (OP, "        return numpy.conj(fouriertransform.ft2(numpy.conj(U), d))", "        return numpy.conj(fouriertransform.ft2(U, d))", "L1"),
+]
+
+# ---- value of the von Karman structure functions at exactly zero separation (V2.evaluable-at-origin, after the fix cd3feeb)
+SEEDED["C08"] += [
+    (SC, "    return numpy.where(numpy.equal(seperation, 0), 0., D_vk)[()]", "    return D_vk", "V2.evaluable"),
+    (KL, "    return np.where(np.equal(r, 0), 0., D_vk)[()]", "    return D_vk", "V2.evaluable"),
+    (SC, "    return numpy.where(numpy.equal(seperation, 0), 0., D_vk)[()]", "    return numpy.where(numpy.equal(seperation, 0), 0.17253 * (L0 / r0) ** (5. / 3.), D_vk)[()]", "V2"),
+    (SC, "    return numpy.where(numpy.equal(seperation, 0), 0., D_vk)[()]", "    return numpy.where(seperation < 1e-3 * L0, 0., D_vk)[()]", "V"),
+]
+BENIGN["C08"] += [
+    (SC, "    return numpy.where(numpy.equal(seperation, 0), 0., D_vk)[()]", "    return numpy.where(seperation > 0, D_vk, 0.)[()]"),
+    (KL, "    return np.where(np.equal(r, 0), 0., D_vk)[()]", "    return np.where(r == 0, 0., D_vk)[()]"),
 ]
